@@ -6,6 +6,8 @@ HOOKS = {
     "add_only": True,
 }
 ENGINES = [
+    {"name": "tlc-spec-wellformed", "path": "spec/SpecPoolGen.tla, spec/SpecCheck.tla", "serves_properties": ["C07"], "kind_free_text": "defect-seeded spec generator + TLA+ well-formedness model evaluated by TLC against recorded outcomes (harness/ebnf.go)"},
+    {"name": "tlc-precedence", "path": "spec/PrecGen.tla, spec/PrecCheck.tla", "serves_properties": ["C12"], "kind_free_text": "directive-list generator + level comparison in TLC"},
     {"name": "tlc-grammar-eq", "path": "spec/Ebnf.tla, spec/EbnfGen.tla, spec/GrammarEq.tla", "serves_properties": ["C01"],
      "kind_free_text": "abstract syntax + denotation of EBNF right-hand sides in TLA+, spec generator, lock-step fixpoint comparison with productions exported by harness/ebnf.go + harness/specdump.go"},
     {"name": "tlc-lexer", "path": "spec/EbnfLexRef.tla, spec/EbnfLexDet.tla, spec/EbnfScan.tla, spec/LexStream.tla, spec/ScannerProduct.tla",
@@ -22,6 +24,20 @@ NOTES = ("Every check: TLC-generated cases -> Go harness runs the real emerge co
          "counterexamples replayed on the real code before a VIOLATION line is printed. Exit 2 = infrastructure, never a verdict.")
 NOT_APPLICABLE = {}
 CHECKS = {
+    "C07": {
+        "level": "model_checking",
+        "engine": "tlc-spec-wellformed",
+        "technique": "TLC evaluates the TLA+ well-formedness model (Defects, Defs) on every generated abstract specification and compares with the outcome, diagnostics and Definitions recorded from the real spec.Parse / Spec.DFA()",
+        "text": "All orders of <=3 (4 thorough) declarations from a defect-seeded pool, plus a well-formed base with <=2 (3) extra declarations inserted at three positions and at most one base declaration removed (13k specs quick): rejected iff the specification has one of the listed defects, the diagnostics name a present defect and nothing absent (known message shapes only), and on acceptance the Definitions list equals the declared one (value, kind, one per terminal, equal to Grammar.Terminals).",
+        "note": "Pool-bounded; predefined pattern texts transcribed in SpecCheck.tla; diagnostics interpreted only for known message shapes.",
+    },
+    "C12": {
+        "level": "model_checking",
+        "engine": "tlc-precedence",
+        "technique": "TLC compares, per generated specification, the directive list of the abstract spec (TLA+) with Spec.Precedences exported from the real spec.Parse; rule-handle productions compared by bounded language and count",
+        "text": "Every sequence (all orders) of <=3 (4) distinct directives from a pool of 9 (all associativities, string/named terminals, rule handles with alternation, extended operators, empty body) placed before, after or interleaved with the declarations of a fixed expression grammar: same levels in source order, same associativity, exactly the listed terminals, and for <r = e> one recorded production per alternative, each a production of the grammar with head r, whose bodies denote exactly Denot(e).",
+        "note": "Pool-bounded; language comparison at K=2.",
+    },
     "C01": {
         "level": "model_checking",
         "engine": "tlc-grammar-eq",
